@@ -1036,3 +1036,202 @@ Section CrossSupport.
     intros r c k Hr Hc Hk. apply (Hdone r Hr c k Hc Hk).
   Qed.
 End CrossSupport.
+
+(* ================================================================ one plane: the four kernels chained *)
+
+Lemma valid_cols_in : forall nc ncR d c, In c (valid_cols nc ncR d) <-> 0 <= c < nc /\ valid_col ncR d c = true.
+Proof.
+  intros. unfold valid_cols. rewrite filter_In, in_zrange. split; intros [H1 H2]; split; auto; lia.
+Qed.
+Lemma valid_cols_nodup : forall nc ncR d, NoDup (valid_cols nc ncR d).
+Proof. intros. unfold valid_cols. apply NoDup_filter. rewrite zrange_span. apply NoDup_span. Qed.
+
+Section PlaneIR.
+  Variables (nr nc ncR : Z) (crossL crossR : Z -> Z -> arms) (d : Q) (cv : Z -> Z -> option Q).
+  Variables (armL armR : dir -> Z -> Z -> Z).
+  Hypothesis Hnr : 1 <= nr.
+  Hypothesis Hnc : 1 <= nc.
+  Hypothesis HL : forall r c, 0 <= r < nr -> 0 <= c < nc ->
+    crossL r c = mkArms (armL DLeft r c) (armL DRight r c) (armL DUp r c) (armL DDown r c).
+  Hypothesis HR : forall r c, 0 <= r < nr -> 0 <= c < ncR ->
+    crossR r c = mkArms (armR DLeft r c) (armR DRight r c) (armR DUp r c) (armR DDown r c).
+  Hypothesis BL : forall r c, 0 <= r < nr -> 0 <= c < nc ->
+    0 <= armL DLeft r c <= c /\ 0 <= armL DRight r c <= nc - 1 - c /\
+    0 <= armL DUp r c <= r /\ 0 <= armL DDown r c <= nr - 1 - r.
+  Hypothesis BR : forall dd r c, 0 <= r < nr -> 0 <= c < ncR -> 0 <= armR dd r c.
+  Hypothesis Hguard : forall r c, 0 <= r < nr -> 0 <= c < nc -> valid_col ncR d c = false -> cv r c = None.
+
+  Variables (k1 k2 k3 k4 : kernel).
+  Hypothesis Hk1 : k1 = cbca_step_1.
+  Hypothesis Hk2 : k2 = cbca_step_2.
+  Hypothesis Hk3 : k3 = cbca_step_3.
+  Hypothesis Hk4 : k4 = cbca_step_4.
+
+  Variables (CV CL CR RC RCR : arr).
+  Hypothesis HCV : ashape CV = [nr; nc].
+  Hypothesis HCVd : forall r c, 0 <= r < nr -> 0 <= c < nc -> adata CV [r; c] = VFlt (of_cost (cv r c)).
+  Hypothesis HCL : arms_arr CL nr nc crossL.
+  Hypothesis HCR : arms_arr CR nr ncR crossR.
+  Hypothesis HRC : ints_arr RC (valid_cols nc ncR d) (fun c => c).
+  Hypothesis HRCR : ints_arr RCR (valid_cols nc ncR d) (corr d).
+
+  Let cols := valid_cols nc ncR d.
+  Let s1 := step1 nc cv.
+  Let s2 := step2 nc ncR crossL crossR d s1.
+  Let sm2 := sum2 ncR crossL crossR d.
+  Let s3 := step3 nr s2.
+
+  Lemma cols_range : forall c, In c cols -> 0 <= c < nc /\ 0 <= corr d c < ncR.
+  Proof.
+    intros c H. apply valid_cols_in in H. destruct H as [H1 H2]. split; auto.
+    rewrite corr_shift. apply valid_col_iff. exact H2.
+  Qed.
+
+  (* the four kernels run without leaving their arrays and compute step4 / sum4 of the model *)
+  Theorem ir_plane_eq :
+    exists S4 SM4, ir_plane k1 k2 k3 k4 CV CL CR RC RCR = Some (S4, SM4) /\
+      forall r c, 0 <= r < nr -> 0 <= c < nc ->
+        fval (adata S4 [r; c]) (step4 nr ncR crossL crossR d s3 r c) /\
+        fval (adata SM4 [r; c]) (inject_Z (sum4 ncR crossL crossR d sm2 r c)).
+  Proof.
+    subst k1 k2 k3 k4. unfold ir_plane.
+    destruct (ir_step1 nr nc cv CV) as (S1 & E1 & HS1 & HS1d); auto; try lia. rewrite E1.
+    destruct (ir_step2 nr nc ncR crossL crossR d s1 S1 CL CR RC RCR cols) as (S2 & SM2 & E2 & HS2 & HSM2 & H2);
+      auto; try lia.
+    { apply valid_cols_nodup. }
+    { apply cols_range. }
+    { intros r c Hr Hin. apply valid_cols_in in Hin. destruct Hin as [Hc Hv].
+      destruct (arms_combined nr nc ncR crossL crossR d armL armR HL HR r c Hr Hc Hv) as (A1 & A2 & _ & _).
+      destruct (ca_bounds nr nc ncR d armL armR BL BR r c Hr Hc Hv) as (B1 & B2 & _ & _).
+      rewrite A1, A2. split; assumption. }
+    rewrite E2.
+    assert (HS2d : forall r c, 0 <= r < nr -> 0 <= c < nc ->
+              fval (adata S2 [r; c]) (s2 r c) /\ fval (adata SM2 [r; c]) (inject_Z (sm2 r c))).
+    { intros r c Hr Hc. destruct (H2 r c Hr Hc) as [Hin Hout]. unfold s2, sm2, step2, sum2.
+      destruct (valid_col ncR d c) eqn:Hv.
+      - apply Hin. apply valid_cols_in. split; assumption.
+      - destruct Hout as [-> ->].
+        { intro Hin'. apply valid_cols_in in Hin'. destruct Hin' as [_ Hv']. congruence. }
+        split; apply fval_fin. }
+    destruct (ir_step3 nr nc s2 S2) as (S3 & E3 & HS3 & HS3d); auto; try lia.
+    { intros r c Hr Hc. apply HS2d; assumption. }
+    rewrite E3.
+    destruct (ir_step4 nr nc ncR crossL crossR d s3 sm2 S3 SM2 CL CR RC RCR cols) as (S4 & SM4 & E4 & HS4 & HSM4 & H4);
+      auto; try lia.
+    { intros r c Hr Hc. apply HS2d; assumption. }
+    { apply valid_cols_nodup. }
+    { apply cols_range. }
+    { intros r c Hr Hin. apply valid_cols_in in Hin. destruct Hin as [Hc Hv].
+      destruct (arms_combined nr nc ncR crossL crossR d armL armR HL HR r c Hr Hc Hv) as (_ & _ & A3 & A4).
+      destruct (ca_bounds nr nc ncR d armL armR BL BR r c Hr Hc Hv) as (_ & _ & B3 & B4).
+      rewrite A3, A4. split; assumption. }
+    rewrite E4. exists S4, SM4. split; [reflexivity|].
+    intros r c Hr Hc. destruct (H4 r c Hr Hc) as [Hin Hout]. unfold step4, sum4.
+    destruct (valid_col ncR d c) eqn:Hv.
+    - apply Hin. apply valid_cols_in. split; assumption.
+    - destruct Hout as [-> ->].
+      { intro Hin'. apply valid_cols_in in Hin'. destruct Hin' as [_ Hv']. congruence. }
+      split; [apply fval_fin | apply HS2d; assumption].
+  Qed.
+
+  (* ... followed by the anchor, the NaN re-injection and the normalisation: the mean of the
+     computable costs over the combined support region of the specification *)
+  Theorem ir_plane_spec :
+    exists S4 SM4, ir_plane k1 k2 k3 k4 CV CL CR RC RCR = Some (S4, SM4) /\
+      forall r c, 0 <= r < nr -> 0 <= c < nc ->
+        finish_cell (cv r c) (adata S4 [r; c]) (adata SM4 [r; c])
+        = Some (match cv r c with
+                | None => None
+                | Some _ => Some (Qred (region_mean armL armR (Qfloor d) cv r c))
+                end).
+  Proof.
+    destruct ir_plane_eq as (S4 & SM4 & E & H). exists S4, SM4. split; [exact E|].
+    intros r c Hr Hc. destruct (H r c Hr Hc) as [(a & Ea & Ha) (n & En & Hn)].
+    rewrite Ea, En. cbn [finish_cell]. f_equal.
+    destruct (cv r c) eqn:Ecv; [|reflexivity].
+    destruct (valid_col ncR d c) eqn:Hv.
+    2:{ rewrite Hguard in Ecv by assumption. discriminate. }
+    f_equal. apply Qred_complete. unfold region_mean.
+    rewrite Ha, Hn.
+    rewrite (step4_is_region_sum nr nc ncR crossL crossR d cv armL armR Hnr Hnc HL HR BL BR s1 s2 s3); auto.
+    setoid_replace (inject_Z (sum4 ncR crossL crossR d sm2 r c) + 1)%Q
+      with (inject_Z (Z.of_nat (length (region armL armR (Qfloor d) r c)))).
+    - unfold Qdiv. ring.
+    - rewrite <- (sum4_is_region_size nr nc ncR crossL crossR d armL armR HL HR BL BR sm2 r c); auto.
+      rewrite inject_Z_plus. reflexivity.
+  Qed.
+End PlaneIR.
+
+(* ================================================================ the whole step on the kernels of the source *)
+
+Section FinalIR.
+  Variable x : cbca_in.
+  Hypothesis Hdist : 1 <= i_dist x.
+  Hypothesis Hsub : 1 <= i_subpix x.
+  Hypothesis Hoff : 0 <= i_off x.
+  Hypothesis Hcnr : 1 <= cnr x.
+  Hypothesis Hcnc : 1 <= cnc x.
+
+  Variables (kx k1 k2 k3 k4 : kernel).
+  Hypothesis Hkx : kx = CbcaIR.cross_support.
+  Hypothesis Hk1 : k1 = cbca_step_1.
+  Hypothesis Hk2 : k2 = cbca_step_2.
+  Hypothesis Hk3 : k3 = cbca_step_3.
+  Hypothesis Hk4 : k4 = cbca_step_4.
+
+  (* an image as the float32 array given to cross_support (NaN already turned into +inf) *)
+  Definition img_arr (A : arr) (nr nc : Z) (I : img) : Prop :=
+    ashape A = [nr; nc] /\ forall r c, 0 <= r < nr -> 0 <= c < nc -> adata A [r; c] = VFlt (of_img (I r c)).
+  (* a plane of the cost volume as the float32 array given to cbca_step_1 *)
+  Definition cost_arr (A : arr) (nr nc : Z) (cv : Z -> Z -> option Q) : Prop :=
+    ashape A = [nr; nc] /\ forall r c, 0 <= r < nr -> 0 <= c < nc -> adata A [r; c] = VFlt (of_cost (cv r c)).
+
+  Theorem ir_cbca_eq_spec : forall k r c,
+    0 <= k < n_disp x -> in_crop x r c = true ->
+    let d := nth_disp x k in
+    let s := plane_image (i_subpix x) d in
+    let cv := crop (i_off x) (i_cv x k) in
+    (forall r' c', 0 <= r' < cnr x -> 0 <= c' < cnc x ->
+                   ~ (0 <= c' + plane_shift d < cncR x s) ->
+                   i_cv x k (r' + i_off x) (c' + i_off x) = None) ->
+    forall IML IMR CV RC RCR,
+    img_arr IML (cnr x) (cnc x) (crop (i_off x) (left_filtered x)) ->
+    img_arr IMR (cnr x) (cncR x s) (crop (i_off x) (right_filtered x s)) ->
+    cost_arr CV (cnr x) (cnc x) cv ->
+    ints_arr RC (valid_cols (cnc x) (cncR x s) d) (fun c0 => c0) ->
+    ints_arr RCR (valid_cols (cnc x) (cncR x s) d) (corr d) ->
+    exists CL CR S4 SM4,
+      run_kernel kx [VInt (i_dist x); VFlt (Fin (i_inten x))] [IML] = Some [CL] /\
+      run_kernel kx [VInt (i_dist x); VFlt (Fin (i_inten x))] [IMR] = Some [CR] /\
+      ir_plane k1 k2 k3 k4 CV CL CR RC RCR = Some (S4, SM4) /\
+      finish_cell (cv (r - i_off x) (c - i_off x))
+                  (adata S4 [r - i_off x; c - i_off x]) (adata SM4 [r - i_off x; c - i_off x])
+      = Some (agg_spec (spec_left x) (spec_right x s) (i_dist x) (i_inten x) (plane_shift d) cv
+                       (r - i_off x) (c - i_off x)).
+  Proof.
+    intros k r c Hk Hin d s cv Hguard IML IMR CV RC RCR [HIML HIMLd] [HIMR HIMRd] [HCV HCVd] HRC HRCR.
+    destruct (in_crop_range x Hoff r c Hin) as (R1 & R2 & R3 & R4).
+    assert (HncR : 0 <= cncR x s).
+    { unfold cncR, ncR_full, cnc in *. destruct (s =? 0); lia. }
+    subst kx.
+    destruct (ir_cross_support (cnr x) (cnc x) (i_dist x) (i_inten x) (crop (i_off x) (left_filtered x)) IML)
+      as (CL & ECL & HCL); auto; try lia.
+    destruct (ir_cross_support (cnr x) (cncR x s) (i_dist x) (i_inten x) (crop (i_off x) (right_filtered x s)) IMR)
+      as (CR & ECR & HCR); auto; try lia.
+    destruct (ir_plane_spec (cnr x) (cnc x) (cncR x s)
+                (Cbca.cross_support (cnr x) (cnc x) (crop (i_off x) (left_filtered x)) (i_dist x) (i_inten x))
+                (Cbca.cross_support (cnr x) (cncR x s) (crop (i_off x) (right_filtered x s)) (i_dist x) (i_inten x))
+                d cv
+                (spec_arm (spec_left x) (i_dist x) (i_inten x)) (spec_arm (spec_right x s) (i_dist x) (i_inten x))
+                Hcnr Hcnc) with (k1 := k1) (k2 := k2) (k3 := k3) (k4 := k4) (CV := CV) (CL := CL) (CR := CR) (RC := RC) (RCR := RCR)
+      as (S4 & SM4 & E & H); auto.
+    - intros r0 c0 Hr0 Hc0. apply arms_spec; auto.
+    - intros r0 c0 Hr0 Hc0. apply arms_spec; auto.
+    - intros. apply (spec_arm_in_image (spec_left x)); simpl; auto.
+    - intros. apply (spec_arm_inside (spec_right x s)).
+    - intros r' c' Hr' Hc' Hv. unfold cv, crop. apply Hguard; auto.
+      intro A. apply valid_col_iff in A. unfold plane_shift in *. congruence.
+    - exists CL, CR, S4, SM4. split; [exact ECL | split; [exact ECR | split; [exact E|]]].
+      rewrite H by lia. reflexivity.
+  Qed.
+End FinalIR.
